@@ -99,7 +99,7 @@ pub fn substr(items: &Vec<&Value>) -> Result<Value, Error> {
 
     let string_len = string.len();
 
-    let idx_abs: usize = idx.abs().try_into().map_err(|e| Error::InvalidArgument {
+    let idx_abs: usize = idx.unsigned_abs().try_into().map_err(|e| Error::InvalidArgument {
         value: idx_arg.clone(),
         operation: "substr".into(),
         reason: format!(
@@ -120,7 +120,7 @@ pub fn substr(items: &Vec<&Value>) -> Result<Value, Error> {
     let end_idx = match limit {
         None => string_len,
         Some(l) => {
-            let limit_abs: usize = l.abs().try_into().map_err(|e| Error::InvalidArgument {
+            let limit_abs: usize = l.unsigned_abs().try_into().map_err(|e| Error::InvalidArgument {
                 value: limit_opt.or(Some(&NULL)).map(|v| v.clone()).unwrap(),
                 operation: "substr".into(),
                 reason: format!(
